@@ -20,18 +20,18 @@ def session_probe(srv, i, sc):
     for key in sorted(log, key=lambda x: float(x)):
         v = log[key]
         try:
-            out.append(int(v["sm"][sc]["constants"]["k"]) if v else 0)
+            out.append(int(v["sm"][S.nm(sc)]["constants"]["k"]) if v else 0)
         except Exception:
             out.append("?%s" % (v,))
     return S.spec_t(st["step"]), out, keys
 
 
 def replay(hist, *, stop, adapter, unit="seconds", compress=False, srv=None, tear=None, base_constants=False, observe=None, probe=False, known=None, two=False,
-           grid=(1.0, 1.0), files=False):
+           grid=(1.0, 1.0), files=False, names=None):
     """returns None when the real server answers as the history says, else a dict describing the first mismatch.
     Expected values are the *intended* ones (`want`) when the history carries them."""
     own = srv is None
-    srv = srv or S.Srv(stop=stop, adapter=adapter, compress=compress, unit=unit, base_constants=base_constants, two=two, grid=grid, files=files)
+    srv = srv or S.Srv(stop=stop, adapter=adapter, compress=compress, unit=unit, base_constants=base_constants, two=two, grid=grid, files=files, names=names)
     sess = {}       # symbolic id -> scenario of the current session (for projections)
     stopped = set()
     try:
